@@ -62,7 +62,7 @@ Proof. split; [reflexivity|]. split; [reflexivity|]. split; [reflexivity|]. vm_c
    is mathcomp's \det -- for EVERY square matrix: hence the sign rule under any number of exchanges, multiplicativity, and the value 0
    on singular input are mathcomp's theorems about \det (det_perm, det_mulmx, det0P).  tabulate n n f is the flat row-major buffer
    the code stores (Proofs/LUTab.v: every wf matrix is tabulate of its entries). *)
-From OV Require Import Proofs.LUTab Bridge.Det Bridge.Inv.
+From OV Require Import Proofs.LUTab Bridge.Det Bridge.Inv Bridge.DetCor Legacy.C02Refuted.
 From mathcomp Require Import all_ssreflect all_algebra.
 Local Open Scope ring_scope.
 
@@ -97,3 +97,70 @@ Check inverse_two_sided : forall (F : fieldType) (abs : F -> F) (ltb leb : F -> 
 Print Assumptions inverse_two_sided.
 Example inverse_two_sided_nonvacuous : PivLaws ratArith /\ wf R2 /\ rows R2 = cols R2 /\ is_ok (@Solve.inverse ratArith R2) = true.
 Proof. split; [exact rat_PivLaws|]. split; [reflexivity|]. split; [reflexivity|]. vm_compute. reflexivity. Qed.
+
+(* completeness: every nonsingular matrix HAS an inverse according to the code (no pivot is zero), and it is two-sided *)
+Theorem inverse_complete : forall (F : fieldType) (abs : F -> F) (ltb leb : F -> F -> bool),
+  PivLaws (ArithOf F abs ltb leb) -> forall (n : nat) (f : nat -> nat -> F),
+  \det (\matrix_(i < n, j < n) f i j) != 0 ->
+  exists N : Matrix.matrix (ArithOf F abs ltb leb), @Solve.inverse (ArithOf F abs ltb leb) (@tabulate (ArithOf F abs ltb leb) n n f) = Ok N /\
+    @LUPrim.shape (ArithOf F abs ltb leb) N n n /\
+    (forall i j, (i < n)%coq_nat -> (j < n)%coq_nat -> @mprod (ArithOf F abs ltb leb) n f (@ent _ N) i j = @delta (ArithOf F abs ltb leb) i j) /\
+    (forall i j, (i < n)%coq_nat -> (j < n)%coq_nat -> @mprod (ArithOf F abs ltb leb) n (@ent _ N) f i j = @delta (ArithOf F abs ltb leb) i j).
+Proof. intros F abs ltb leb PL n f. exact (inverse_complete_bridge PL (n:=n) (f:=f)). Qed.
+Check inverse_complete : forall (F : fieldType) (abs : F -> F) (ltb leb : F -> F -> bool),
+  PivLaws (ArithOf F abs ltb leb) -> forall (n : nat) (f : nat -> nat -> F),
+  \det (\matrix_(i < n, j < n) f i j) != 0 ->
+  exists N : Matrix.matrix (ArithOf F abs ltb leb), @Solve.inverse (ArithOf F abs ltb leb) (@tabulate (ArithOf F abs ltb leb) n n f) = Ok N /\
+    @LUPrim.shape (ArithOf F abs ltb leb) N n n /\
+    (forall i j, (i < n)%coq_nat -> (j < n)%coq_nat -> @mprod (ArithOf F abs ltb leb) n f (@ent _ N) i j = @delta (ArithOf F abs ltb leb) i j) /\
+    (forall i j, (i < n)%coq_nat -> (j < n)%coq_nat -> @mprod (ArithOf F abs ltb leb) n (@ent _ N) f i j = @delta (ArithOf F abs ltb leb) i j).
+Print Assumptions inverse_complete.
+Example inverse_complete_nonvacuous : PivLaws ratArith /\ \det (\matrix_(i < 3, j < 3) (if Nat.eqb i j then 1 else 0 : rat)) != 0.
+Proof. split; [exact rat_PivLaws | exact (det_id_neq0 rat_fieldType 3)]. Qed.
+
+(* the three halves of the property text that follow from determinant = \det, stated about the code's determinant *)
+Theorem determinant_singular_zero : forall (F : fieldType) (abs : F -> F) (ltb leb : F -> F -> bool),
+  PivLaws (ArithOf F abs ltb leb) -> forall (n : nat) (f : nat -> nat -> F) (v : nat -> F),
+  (exists i, (i < n)%coq_nat /\ v i <> 0) ->
+  (forall j, (j < n)%coq_nat -> @sum_n (ArithOf F abs ltb leb) n (fun i => v i * f i j) = 0) ->
+  @Solve.determinant (ArithOf F abs ltb leb) (@tabulate (ArithOf F abs ltb leb) n n f) = Ok (0 : F).
+Proof. intros F abs ltb leb PL n f v. exact (determinant_singular_zero_lemma PL (n:=n) (f:=f) (v:=v)). Qed.
+Check determinant_singular_zero : forall (F : fieldType) (abs : F -> F) (ltb leb : F -> F -> bool),
+  PivLaws (ArithOf F abs ltb leb) -> forall (n : nat) (f : nat -> nat -> F) (v : nat -> F),
+  (exists i, (i < n)%coq_nat /\ v i <> 0) ->
+  (forall j, (j < n)%coq_nat -> @sum_n (ArithOf F abs ltb leb) n (fun i => v i * f i j) = 0) ->
+  @Solve.determinant (ArithOf F abs ltb leb) (@tabulate (ArithOf F abs ltb leb) n n f) = Ok (0 : F).
+Print Assumptions determinant_singular_zero.
+Example determinant_singular_zero_nonvacuous : (* all-ones 3x3: the witness of the repaired defect; v = (1,-1,0) *)
+  (exists i, (i < 3)%coq_nat /\ (fun i => if Nat.eqb i 0 then 1 else if Nat.eqb i 1 then -1 else 0 : rat) i <> 0) /\
+  (forall j, (j < 3)%coq_nat -> @sum_n ratArith 3 (fun i => (if Nat.eqb i 0 then 1 else if Nat.eqb i 1 then -1 else 0 : rat) * 1) = 0).
+Proof. split; [exists 0%N; split; [repeat constructor | discriminate] | intros j _; vm_compute; reflexivity]. Qed.
+
+Theorem determinant_row_swap : forall (F : fieldType) (abs : F -> F) (ltb leb : F -> F -> bool),
+  PivLaws (ArithOf F abs ltb leb) -> forall (n : nat) (f : nat -> nat -> F) (a b : nat) (d : F),
+  (a < n)%coq_nat -> (b < n)%coq_nat -> a <> b ->
+  @Solve.determinant (ArithOf F abs ltb leb) (@tabulate (ArithOf F abs ltb leb) n n f) = Ok d ->
+  @Solve.determinant (ArithOf F abs ltb leb) (@tabulate (ArithOf F abs ltb leb) n n (fun i j => f (tr a b i) j)) = Ok (- d).
+Proof. intros F abs ltb leb PL n f a b d. exact (determinant_row_swap_lemma PL (n:=n) (f:=f) (a:=a) (b:=b) (d:=d)). Qed.
+Check determinant_row_swap : forall (F : fieldType) (abs : F -> F) (ltb leb : F -> F -> bool),
+  PivLaws (ArithOf F abs ltb leb) -> forall (n : nat) (f : nat -> nat -> F) (a b : nat) (d : F),
+  (a < n)%coq_nat -> (b < n)%coq_nat -> a <> b ->
+  @Solve.determinant (ArithOf F abs ltb leb) (@tabulate (ArithOf F abs ltb leb) n n f) = Ok d ->
+  @Solve.determinant (ArithOf F abs ltb leb) (@tabulate (ArithOf F abs ltb leb) n n (fun i j => f (tr a b i) j)) = Ok (- d).
+Print Assumptions determinant_row_swap.
+
+Theorem determinant_mul : forall (F : fieldType) (abs : F -> F) (ltb leb : F -> F -> bool),
+  PivLaws (ArithOf F abs ltb leb) -> forall (n : nat) (f g : nat -> nat -> F) (df dg : F),
+  @Solve.determinant (ArithOf F abs ltb leb) (@tabulate (ArithOf F abs ltb leb) n n f) = Ok df ->
+  @Solve.determinant (ArithOf F abs ltb leb) (@tabulate (ArithOf F abs ltb leb) n n g) = Ok dg ->
+  @Solve.determinant (ArithOf F abs ltb leb) (@tabulate (ArithOf F abs ltb leb) n n (@mprod (ArithOf F abs ltb leb) n f g)) = Ok (df * dg).
+Proof. intros F abs ltb leb PL n f g df dg. exact (determinant_mul_lemma PL (n:=n) (f:=f) (g:=g) (df:=df) (dg:=dg)). Qed.
+Check determinant_mul : forall (F : fieldType) (abs : F -> F) (ltb leb : F -> F -> bool),
+  PivLaws (ArithOf F abs ltb leb) -> forall (n : nat) (f g : nat -> nat -> F) (df dg : F),
+  @Solve.determinant (ArithOf F abs ltb leb) (@tabulate (ArithOf F abs ltb leb) n n f) = Ok df ->
+  @Solve.determinant (ArithOf F abs ltb leb) (@tabulate (ArithOf F abs ltb leb) n n g) = Ok dg ->
+  @Solve.determinant (ArithOf F abs ltb leb) (@tabulate (ArithOf F abs ltb leb) n n (@mprod (ArithOf F abs ltb leb) n f g)) = Ok (df * dg).
+Print Assumptions determinant_mul.
+(* determinant_row_swap / determinant_mul: their determinant hypotheses always hold (determinant_is_det: the code's determinant
+   returns a value on every square matrix), so they are not vacuous; Legacy/C02Refuted.v (determinant_legacy_refuted) shows the
+   pre-repair code violates determinant_singular_zero on the all-ones matrix. *)
